@@ -15,6 +15,9 @@ use lipe_find_parser::ast::*;
 fn action_for(k: u64, plain: bool) -> Option<Action> {
     let f_nl = vec![FormatElement::Field(FormatField::Basename), FormatElement::Special(FormatSpecial::Newline)];
     let f_raw = vec![FormatElement::Field(FormatField::Basename), FormatElement::Literal("|".into())];
+    // multi-element formats, literal text first / last / between fields
+    let f_lit_first = vec![FormatElement::Literal("file: ".into()), FormatElement::Field(FormatField::Basename), FormatElement::Special(FormatSpecial::Newline)];
+    let f_mixed = vec![FormatElement::Literal("<".into()), FormatElement::Field(FormatField::Basename), FormatElement::Literal("|".into()), FormatElement::Field(FormatField::FileId), FormatElement::Literal(">".into())];
     Some(match (plain, k) {
         (_, 0) => Action::Print,
         (_, 1) => Action::PrintFid,
@@ -26,6 +29,9 @@ fn action_for(k: u64, plain: bool) -> Option<Action> {
         (false, 7) => Action::PrintFormatted(f_raw),
         (false, 8) => Action::FilePrint("b".into()),
         (_, 9) => Action::Quit,
+        (_, 10) => Action::PrintFormatted(f_lit_first),
+        (false, 11) => Action::PrintFormatted(f_mixed),
+        (false, 12) => Action::FilePrintFormatted("a".into(), f_lit_first),
         _ => return None,
     })
 }
@@ -35,12 +41,12 @@ fn build_expr(r: &mut Rng, printers: usize, plain: bool) -> Expression {
     let mut have_framing = false;
     for j in 0..printers {
         let a = loop {
-            let k = r.below(10);
+            let k = r.below(13);
             if let Some(a) = action_for(k, plain) {
-                if !plain && j + 1 == printers && !have_framing && (k < 3 || k == 9) {
+                if !plain && j + 1 == printers && !have_framing && (k < 3 || k == 9 || k == 10) {
                     continue; // make sure a framed configuration really is framed
                 }
-                if (3..9).contains(&k) {
+                if (3..9).contains(&k) || k >= 11 {
                     have_framing = true;
                 }
                 break a;
@@ -61,8 +67,14 @@ pub struct Prepared {
     pub framed: bool,
 }
 
-pub fn prepare(e: &Expression, n_threads: usize, recs_per_thread: usize) -> Result<Prepared, String> {
-    let (res, t0, _) = compile_g(e, &opts_default(), "/dev/x").map_err(|p| format!("panic: {}", p.0))?;
+pub fn prepare(e: &Expression, n_threads: usize, recs_per_thread: usize, explicit_threads: bool) -> Result<Prepared, String> {
+    // the options are an input of compile(): half of the configurations ask for an explicit thread count
+    let mut opts = opts_default();
+    if explicit_threads {
+        opts.threads = Some(n_threads as u32);
+        opts.depth = true;
+    }
+    let (res, t0, _) = compile_g(e, &opts, "/dev/x").map_err(|p| format!("panic: {}", p.0))?;
     let c = res.map_err(|m| format!("refused: {}", m))?;
     let forms = read_program(&c.text).map_err(|e| format!("unreadable: {}", e))?;
     let mut records = vec![];
@@ -101,7 +113,7 @@ pub fn prepare(e: &Expression, n_threads: usize, recs_per_thread: usize) -> Resu
 
 fn run_config(e: &Expression, n_threads: usize, rpt: usize, case: &str, seed: u64, dfs_budget: u64, random: u64, free: bool, rep: &mut Report) {
     rep.evaluations += 1;
-    let p = match prepare(e, n_threads, rpt) {
+    let p = match prepare(e, n_threads, rpt, seed % 2 == 1) {
         Ok(p) => p,
         Err(why) => {
             // every construct of this workload is supported: a program that cannot be executed in the
